@@ -154,6 +154,13 @@ func mixedArgs(kvs []gen.KV) []any {
 		}
 		if pair && !plainGroup {
 			as = append(as, kv.Key, kv.Val.Go)
+		} else if h.Sum32()%5 == 1 && currentCase%3 == 1 {
+			// ... or inside a plain []slog.Attr (the unnamed slice type; slog.Attrs is the named one) or an Attrs value
+			if h.Sum32()%2 == 1 {
+				as = append(as, []slog.Attr{kv.Attr()})
+			} else {
+				as = append(as, slog.Attrs{kv.Attr()})
+			}
 		} else {
 			as = append(as, kv.Attr())
 		}
